@@ -4,6 +4,9 @@ C06 -- proposal corrections of the RW, IWLS and MH kernels satisfy detailed bala
 
 from __future__ import annotations
 
+import ast
+import re
+
 import sympy as sp
 
 from ..algebra import Untranslatable, is_zero, to_sympy
@@ -17,6 +20,23 @@ MH = "liesel.goose.mh.mh_step"
 UT = "liesel.goose.iwls_utils"
 
 
+_Q = re.compile(r"q\(\s*x\s*('?)\s*\|\s*x\s*('?)\s*\)")
+
+
+def documented_ratio(doc: str):
+    """Orientation of the proposal-density ratio a docstring states: 'bwd/fwd' for
+    q(x|x')/q(x'|x) (or the difference of the logs), 'fwd/bwd' for the reciprocal, None
+    if the text states no ratio.  The first q(.|.) merely introduces the notation when
+    it is not followed by an operator."""
+    toks = [(m.start(), m.end(), (m.group(1), m.group(2))) for m in _Q.finditer(doc)]
+    for (s0, e0, a), (s1, e1, b) in zip(toks, toks[1:]):
+        between = doc[e0:s1]
+        if re.fullmatch(r"[\s)\]`]*(/|-)\s*(log)?[\s(\[`]*", between) and a != b \
+                and {a, b} == {("", "'"), ("'", "")}:
+            return "bwd/fwd" if a == ("", "'") else "fwd/bwd"
+    return None
+
+
 def check(ctx):
     repo = ctx.repo
     ctx.rule("R1", "RW: the proposal is position + step with a step that depends on the "
@@ -28,6 +48,8 @@ def check(ctx):
     ctx.rule("R3", "the Gaussian helpers agree: mvn_sample inverts the standardisation of "
                    "mvn_log_prob; the log-determinant term is + sum log diag(L); solve is "
                    "forward then backward substitution with the same factor.")
+    ctx.rule("R4doc", "the log-correction convention documented for MHProposal / mh_step "
+                      "is the one mh_step applies (reported under R4).")
     ctx.rule("R4", "MHKernel passes the user's proposal position and log_correction to "
                    "mh_step unchanged.")
     ctx.rule("R5", "the Fisher information is the negative Hessian of the block's "
@@ -301,5 +323,27 @@ def check(ctx):
                           "to mh_step", ok, detail=short(mh[0], 200) if mh else "",
            stmt="mh forwarding")
     # mh_step uses the correction additively inside the guarded log ratio: C05.R1
+    # ---- the declared convention: every docstring that states the ratio states the one
+    # mh_step applies (log_correction is ADDED to log pi(x') - log pi(x))
+    docs = []
+    for mname in ("liesel.goose.mh", "liesel.goose.mh_kernel"):
+        mi = repo.modules[mname]
+        for x in ast.walk(mi.tree):
+            if isinstance(x, ast.Expr) and isinstance(x.value, ast.Constant) \
+                    and isinstance(x.value.value, str) and "q(" in x.value.value:
+                docs.append((mi, x))
+    stated = 0
+    for mi, x in docs:
+        o = documented_ratio(x.value.value)
+        if o is None:
+            continue
+        stated += 1
+        ctx.ob("C06.R4", mk if mi.name.endswith("mh_kernel") else repo.func(MH),
+               "the documented log-correction is log[q(x|x') / q(x'|x)] -- the ratio "
+               "mh_step adds to the log acceptance ratio -- so that a proposal function "
+               "written after the documentation is in detailed balance", o == "bwd/fwd",
+               detail=f"{mi.relpath}:{x.lineno} states {o}", node=x,
+               stmt=f"documented correction {o} in {mi.relpath}")
+    ctx.require_min("docstrings stating the MH correction ratio", stated, 1)
 
 
